@@ -12,7 +12,7 @@ from .common import need_func, make_eq
 from . import solver_model as SM
 
 LEVEL = 'other'
-TECHNIQUE = 'abstract interpretation of every starting-condition function into symbolic solution matrices Y(r) (Bessel-ratio and Takeuchi functions as function atoms with their differential rules); span flow-invariance rank[Y | A Y - dY/dr] = rank Y under the solver\'s own coefficient matrix A (exact rank over GF(p^2) at random points); series tables against Riccati/Bessel series with symbolic degree; slot-discipline and driver-dispatch rules'
+TECHNIQUE = 'abstract interpretation of every starting-condition function into symbolic solution matrices Y(r) (Bessel-ratio and Takeuchi functions as function atoms with their differential rules); span flow-invariance rank[Y | A Y - dY/dr] = rank Y under the solver\'s own coefficient matrix A (exact rank over GF(p^2) at random points); series tables against Riccati/Bessel series with symbolic degree; slot-discipline and driver-dispatch rules; arguments the executed driver hands to the starting-condition routine (recorded in the whole-function symbolic execution, dimensional and non-dimensionalised)'
 LEVEL_TEXT = ('The property\'s own reformulation ("the starting vectors at two radii are related by the solver\'s differential equations") is decided as an algebraic identity for all radii, '
               'material values, frequencies and degrees at once, for each of the 9 starting functions; plus the truncated series used inside them and the dispatcher that selects them.')
 LEVEL_NOTE = ('Trusted: Cython-subset front-end, interpreter, symbolic differentiation, the recurrences of spherical Bessel functions used as differential rules, exact linear algebra in GF(p^2) '
